@@ -20,7 +20,7 @@ CHECKS = {
     "C13": ("exploration",
             "program-space exploration driven by the TLA+ kind system: TLC enumerates well-kinded and ill-kinded stacks, each becomes a generated translation unit exercising the whole field API (must compile and run clean) or must be rejected by the compiler",
             "Stack!WellKinded is the library's kind system written down once; StackMC enumerates well-kinded stacks (pairwise adjacency cover, seeded depth <= 5, helper chains to depth 10) and one ill-kinded stack per stated rule; the generated program asserts the backend concept and trivially copyable views and uses parameter-pack construction, default construction, views, both lookup forms, copy/move construction and assignment, configuration/backend accessors, conversion from a compatible stack, dump and load; g++ and the sanitised run are the judges.",
-            "Exploration, not exhaustive enumeration of all stacks of depth <= 5. CUDA backends are not compiled (no CUDA runtime): cuda_device_array is listed in KNOWN_FINDINGS.txt as unverifiable here. ViewBytes is a lower bound (padding ignored), well-kinded stacks stay below 200 bytes.",
+            "Exploration, not exhaustive enumeration of all stacks of depth <= 5. cuda_device_array is compiled and run against a host shim of the CUDA runtime (reduced assurance); cuda_texture is not compiled. ViewBytes is a lower bound (padding ignored), well-kinded stacks stay below 200 bytes.",
             "DESIGN.md section 4, C13"),
     "C17": ("model_checking",
             "TLA+ Configs (i-th configuration belongs to the i-th layer) over TLC-enumerated stacks and helper chains + generated programs reading configurations back, rebuilding and using the positional helper",
@@ -55,7 +55,7 @@ CHECKS = {
     "C05": ("model_checking",
             "TLA+ Convert action (re-layout copy in nd_map order) checked by TLC + generated conversion behaviours replayed on real fields + all ordered layout pairs and whole stacks on TLC-enumerated extents + trace validation of random extents",
             "TLC checks, for every conversion chain over the four layouts and every extent vector of the configuration (N in 1..4), that a conversion is a stuttering step on the array model (Refines), keeps the configuration, sizes the storage as the constructor computes it, leaves the source untouched and that fields with equal models agree whatever their layouts (RoundTrip); the implementation is bound by replaying one behaviour per transition and by converting every ordered layout pair there and back and whole affine<I<L<array>>> stacks on every TLC-enumerated extent vector.",
-            "Trusted: TLC, g++ 12, ASan/UBSan. The CUDA device array conversion is not exercised (no CUDA runtime in the sandbox; the planned host shim was not built in this round).",
+            "Trusted: TLC, g++ 12, ASan/UBSan. The CUDA device-array conversion is compiled and executed against a host shim of the CUDA runtime (harness/cuda_shim): reduced assurance, nothing is claimed about real devices.",
             "DESIGN.md section 4, C05 and section 6"),
     "C03": ("model_checking",
             "TLA+ definition of the interpolator as coded vs the tensor-product interpolant checked by TLC + emitted fields/queries replayed exactly + trace validation of random dyadic queries",
